@@ -112,6 +112,14 @@ def execute(spec, policy, seed=0, step_budget=40000):
         c = run.make_connection(allowed_versions=allowed, handle_exception=on_exc)
         from .vnet import projection
         run.sched.observers.append(lambda e: e.__setitem__('st', projection(c)))
+        real_disconnect = c.disconnect
+
+        def logged_disconnect(immediate=False):
+            me = run.sched.me()
+            if immediate and me is not None and me.name.startswith('net'):
+                run.sched.log('disc_by')        # (the projection attached to the event is the state before the call)
+            return real_disconnect(immediate)
+        c.disconnect = logged_disconnect
         if spec.get('listener_reconnect'):
             def relisten(pkt):
                 if state['reconnects'] < 1:
@@ -121,6 +129,9 @@ def execute(spec, policy, seed=0, step_budget=40000):
             c.register_packet_listener(relisten, clientbound.play.TimeUpdatePacket, early=bool(spec.get('early')))
         if spec.get('raise_in_listener'):
             def boom(pkt):
+                for _ in range(3):          # a listener that takes its time: other threads may act meanwhile
+                    run.sched.yield_point()
+                run.sched.log('listener_raise')
                 raise RuntimeError('listener failure')
             c.register_packet_listener(boom, clientbound.play.KeepAlivePacket)
         progs = spec['programs']
@@ -168,6 +179,13 @@ def lifecycle_events(run):
             ev.append({'k': 'io', 't': t})
         elif k == 'thread_end':
             ev.append({'k': 'end', 'who': e['who']})
+        elif k == 'listener_raise':
+            ev.append({'k': 'raise', 'who': t})
+        elif k == 'disc_by':
+            st = e.get('st', {})
+            victim, intr = (st.get('newNt'), st.get('newIntr')) if st.get('newNt') is not None else (st.get('nt'), st.get('ntIntr'))
+            if victim is not None:
+                ev.append({'k': 'teardown', 'by': t, 'victim': victim, 'intr': bool(intr)})
     ev.append({'k': 'final'})
     return ev
 
